@@ -17,7 +17,7 @@ ops
   diff <castorIdHex> <count> <workingMiners>
   block <height> <p004> <flags6> <fee> <feeacct> S <p010 0|1> <p019 0|1> <p025Block|x> <castorIdHex> <reward|x> <ntx> tx*
       tx = <hash> <req> <nonce> <typ> <srcStrHex> <src> <feeAddr> <srcNumHex> body
-      body = e | j <datahex> | t <n> (<keyhex> <addr> <amt|x>)* | r <amount|x> <minerIdHex>
+      body = e | j <datahex> | t <n> (<keyhex> <addr> <amt|x>)* | r <amount|x> <minerIdHex> | a <minerIdHex> <delta>
              | o <ok> <evicted> <msghex> <k> (<addr> <bal> <nonce>)*      (observed effect of an EVM transaction)
       reward = x | <nextHeight> <castor> <share> <np> pairs <nv> pairs | F <totalBits> <rewardBlocks> <castorIdHex> <x | n ids>
   ca <src> <n> (<keyhex> <addr> <amt|x>)*
@@ -94,6 +94,10 @@ def body? : List String → Option (Body × List String)
     let amt ← (if a == "x" then some none else (nat? a).map some)
     let id ← hexNat? i
     pure (.refund amt id, r)
+  | "a" :: i :: dl :: r => do
+    let id ← hexNat? i
+    let dl ← nat? dl
+    pure (.addStake id dl, r)
   | "o" :: ok :: ev :: m :: n :: r => do
     let ok ← (if ok == "1" then some true else if ok == "0" then some false else none)
     let ev ← (if ev == "1" then some true else if ev == "0" then some false else none)
